@@ -232,6 +232,9 @@ class ProfileMachine(Machine):
         if st.dead:
             return None
         r = rng.random()
+        if not st.hist and rng.chance(0.15):
+            # before anything was read (the arrays are evaluated lazily)
+            r = rng.uniform(0.845, 0.86)
         arrays = ['radius', 'profile', 'profile_error', 'area']
         if self.variant == 'radial':
             arrays += ['data_profile', 'data_radius']
@@ -241,8 +244,18 @@ class ProfileMachine(Machine):
         if r < 0.72:
             return {'op': 'normalize',
                     'method': rng.pick(['max', 'sum', 'max', 'bogus'])}
-        if r < 0.86:
+        if r < 0.845:
             return {'op': 'unnormalize'}
+        if r < 0.855:
+            # the caller takes one of the apertures the object hands out and
+            # draws it on a cutout (non-zero origin)
+            return {'op': 'aper_plot', 'k': rng.randrange(12),
+                    'origin': [rng.uniform(1, 9), rng.uniform(-4, 7)]}
+        if r < 0.86:
+            # a typo in an attribute makes a read fail; the caller corrects
+            # it and reads again
+            return {'op': 'bad_then_fix',
+                    'attr': rng.pick(['profile', 'area', 'profile_error'])}
         if r < 0.865:
             # the object goes through copy.deepcopy / pickle (as it does on
             # its way to a worker process) and the clone is used from then on
@@ -417,6 +430,27 @@ class ProfileMachine(Machine):
                     v = call(getattr, o, a)
                     self._check_array(st, a, v, where + ' (restored)')
                     st.read.add(a)
+            return
+        if kind == 'aper_plot':
+            aps = call(getattr, o, 'apertures')
+            if isinstance(aps, Raised) or not len(aps):
+                return
+            ap = aps[op['k'] % len(aps)]
+            if ap is not None:
+                from matplotlib.figure import Figure
+                call(ap.plot, ax=Figure().subplots(),
+                     origin=tuple(op['origin']))
+                st.stats.probe('handed_out_aperture_plotted')
+            st.hist.append('aplot')
+            return
+        if kind == 'bad_then_fix':
+            good = o.method
+            o.method = 'centre'           # not a valid method
+            bad = call(getattr, o, op['attr'])
+            o.method = good
+            if isinstance(bad, Raised):
+                st.stats.fault('reject')
+            st.hist.append('typo')
             return
         if kind == 'clone':
             import copy as _c
